@@ -14,6 +14,7 @@ Abstract input (JSON, numbers as exact rational strings):
 The harness resolves a tag id to the encoder's answer (its position in the vocabulary or
 null) and tells the model the float32 value `prediction_encoding` stores for every score.
 """
+import copy
 import os
 import warnings
 from fractions import Fraction
@@ -143,15 +144,31 @@ def enc(vocab, t):
     return vocab.index(t) if t in vocab else None
 
 
+_MATCH_CACHE = {}
+
+
 def matcher_answer(pred_events, ann_events):
     """the real matcher on the filtered geometry lists, as the code calls it"""
     from soundevent.evaluation.match import match_geometries
-    src = [_geometry(e["geom"]) for e in pred_events if e["geom"] is not None]
-    tgt = [_geometry(e["geom"]) for e in ann_events if e["geom"] is not None]
+    key = (tuple(tuple(e["geom"]) for e in pred_events if e["geom"] is not None),
+           tuple(tuple(e["geom"]) for e in ann_events if e["geom"] is not None))
+    if key in _MATCH_CACHE:
+        return copy.deepcopy(_MATCH_CACHE[key])
+    src = [_geometry(list(g)) for g in key[0]]
+    tgt = [_geometry(list(g)) for g in key[1]]
     out = []
     for s, t, a in match_geometries(source=src, target=tgt):
         out.append([None if s is None else int(s), None if t is None else int(t), _num(a)])
-    return out
+    if len(_MATCH_CACHE) > 20000:
+        _MATCH_CACHE.clear()
+    _MATCH_CACHE[key] = out
+    return copy.deepcopy(out)
+
+
+def affinity(g1, g2):
+    """the geometric affinity of two boxes as the library computes it (exact rational of the float)"""
+    from soundevent.evaluation.affinity import compute_affinity
+    return Fraction(float(compute_affinity(_geometry(g1), _geometry(g2))))
 
 
 def multilabel_clip_score(vocab, ann_tags, pred_tags):
@@ -246,9 +263,9 @@ def match_key(m):
 
 
 def evaluation_diff(impl, model, score_mode="round-once", clip_score_mode="round-once", clip_order=True,
-                    affinity=True):
+                    affinity=True, metrics=True):
     """None when the two canonical evaluations agree on everything C08/C09 pin"""
-    d = features_diff("evaluation", impl["metrics"], model["metrics"])
+    d = features_diff("evaluation", impl["metrics"], model["metrics"]) if metrics else None
     if d:
         return d
     if not num_eq(impl["score"], model["score"], score_mode):
@@ -263,7 +280,7 @@ def evaluation_diff(impl, model, score_mode="round-once", clip_score_mode="round
         w = f"clip {a['clip']}"
         if a.get("pclip", a["clip"]) != a["clip"]:
             return f"clip evaluation pairs annotations and predictions of different clips ({w})"
-        d = features_diff(w, a["metrics"], b["metrics"])
+        d = features_diff(w, a["metrics"], b["metrics"]) if metrics else None
         if d:
             return d
         if not num_eq(a["score"], b["score"], clip_score_mode):
@@ -278,7 +295,7 @@ def evaluation_diff(impl, model, score_mode="round-once", clip_score_mode="round
                 return f"match affinity is not the one the matcher reported: {_fl(x['affinity'])} instead of {_fl(y['affinity'])} ({wm})"
             if not num_eq(x["score"], y["score"], "exact"):
                 return f"match score is not the probability of the true class: {_fl(x['score'])} instead of {_fl(y['score'])} ({wm})"
-            d = features_diff(wm, x["metrics"], y["metrics"])
+            d = features_diff(wm, x["metrics"], y["metrics"]) if metrics else None
             if d:
                 return d
     return None
@@ -396,3 +413,48 @@ def clip_ids(rng, n_both, n_only_pred, n_only_ann):
     rng.shuffle(p)
     rng.shuffle(a)
     return p, a
+
+
+# ------------------------------------------------------------------ detection inputs
+def gen_boxes(rng):
+    """a bounding box on a coarse grid: overlapping / touching / disjoint / far apart placements"""
+    t0 = Fraction(rng.randint(0, 12), 2)
+    w = Fraction(rng.choice([1, 2, 2, 4]), 2)
+    f0 = rng.choice([1000, 1000, 1500, 3000])
+    h = rng.choice([500, 1000, 1000])
+    return [rat(t0), str(f0), rat(t0 + w), str(f0 + h)]
+
+
+def gen_detection(rng, n_clips=None, vocab=None):
+    vocab = vocab if vocab is not None else gen_vocab(rng, 1, 6)
+    pool = list(range(POOL))
+    nb = n_clips if n_clips is not None else rng.choice([1, 1, 2, 3, 4])
+    p_ids, a_ids = clip_ids(rng, nb, rng.choice([0, 0, 1]), rng.choice([0, 0, 1]))
+    def dp():
+        return vocab if rng.random() < 0.7 else pool
+    nid = [0]
+    def evs(pred):
+        out = []
+        for _ in range(rng.choice([0, 1, 1, 2, 2, 3, 4])):
+            nid[0] += 1
+            g = gen_boxes(rng) if rng.random() < 0.8 else None
+            out.append({"id": nid[0], "geom": g,
+                        "tags": single_label_scores(rng, dp()) if pred else true_tags(rng, dp())})
+        return out
+    preds = [{"clip": c, "events": evs(True)} for c in p_ids]
+    anns = [{"clip": c, "events": evs(False)} for c in a_ids]
+    # copy some annotation boxes into predictions so that exact and partial overlaps are common
+    ann_by = {c["clip"]: c for c in anns}
+    for c in preds:
+        a = ann_by.get(c["clip"])
+        if a:
+            boxes = [e["geom"] for e in a["events"] if e["geom"]]
+            for e in c["events"]:
+                if e["geom"] and boxes and rng.random() < 0.5:
+                    b = list(rng.choice(boxes))
+                    if rng.random() < 0.5:
+                        b[2] = rat(frac(b[2]) + Fraction(1, 2))
+                    e["geom"] = b
+    return {"task": "sound_event_detection", "vocab": vocab, "predictions": preds, "annotations": anns}
+
+
